@@ -229,9 +229,11 @@ fn expected(c: &BuilderCase, f: &Insn) -> Option<(u8, Option<String>)> {
             (opc, text)
         }
         "load" => {
-            // only the double-word form denotes an instruction (first slot of lddw)
-            if SIZES[c.p1 as usize % 4] != 8 {
-                return None;
+            // only the double-word form denotes an instruction (first slot of lddw); the other
+            // sizes still have the opcode the builder composes: class LD | mode IMM | size
+            let b = SIZES[c.p1 as usize % 4];
+            if b != 8 {
+                return Some((isa::ldabs_opc(b) & 0x18, None));
             }
             (isa::LDDW, None)
         }
